@@ -443,6 +443,11 @@ func (u *Unmarshaler) parseOptionsWithContext(field reflect.StructField, m Value
 		key = u.opts.canonicalKey(key)
 
 		if len(options.OptionalDep) > 0 {
+			// canonicalize the key after the not symbol, not the symbol itself
+			dep := u.opts.canonicalKey(options.OptionalDep)
+			if options.OptionalDep[0] == notSymbol {
+				dep = string(notSymbol) + u.opts.canonicalKey(options.OptionalDep[1:])
+			}
 			// need to create a new fieldOption, because the original one is shared through cache.
 			options = &fieldOptions{
 				fieldOptionsWithContext: fieldOptionsWithContext{
@@ -454,7 +459,7 @@ func (u *Unmarshaler) parseOptionsWithContext(field reflect.StructField, m Value
 					EnvVar:     options.EnvVar,
 					Range:      options.Range,
 				},
-				OptionalDep: u.opts.canonicalKey(options.OptionalDep),
+				OptionalDep: dep,
 			}
 		}
 	}
